@@ -747,13 +747,13 @@ class E2EGen:
 
 
 E2E_WITNESS_OLD_JMPBUF = PRELUDE_C + r"""
-static NI int leaf(int x) { ENTER("fn_leaf"); return x + 1; }
-static NI int c(int x) { ENTER("fn_c"); CALL(leaf, 1); logline("L", "jb", 0); longjmp(jb[0], 1); return x; }
-static NI int b(int x) { ENTER("fn_b"); { volatile int sd_ = D; logline("J", "jb", 1);
-	if (setjmp(jb[1]) == 0) { CALL(c, 1); } else { D = sd_; } } return x; }
-static NI int a(int x) { ENTER("fn_a"); { volatile int sd_ = D; logline("J", "jb", 0);
-	if (setjmp(jb[0]) == 0) { CALL(b, 1); } else { D = sd_; logline("B", "jb", 0); CALL(leaf, 2); } } CALL(leaf, 3); return x; }
-int main(void) { setvbuf(stdout, NULL, _IONBF, 0); ENTER("main"); CALL(a, 1); CALL(leaf, 4); logline("S", "sink", sink); return 0; }
+static NI int fn_leaf(int x) { ENTER("fn_leaf"); return x + 1; }
+static NI int fn_c(int x) { ENTER("fn_c"); CALL(fn_leaf, 1); logline("L", "jb", 0); longjmp(jb[0], 1); return x; }
+static NI int fn_b(int x) { ENTER("fn_b"); { volatile int sd_ = D; logline("J", "jb", 1);
+	if (setjmp(jb[1]) == 0) { CALL(fn_c, 1); } else { D = sd_; } } return x; }
+static NI int fn_a(int x) { ENTER("fn_a"); { volatile int sd_ = D; logline("J", "jb", 0);
+	if (setjmp(jb[0]) == 0) { CALL(fn_b, 1); } else { D = sd_; logline("B", "jb", 0); CALL(fn_leaf, 2); } } CALL(fn_leaf, 3); return x; }
+int main(void) { setvbuf(stdout, NULL, _IONBF, 0); ENTER("main"); CALL(fn_a, 1); CALL(fn_leaf, 4); logline("S", "sink", sink); return 0; }
 """
 
 E2E_WITNESS_RESUME_ALIAS = r"""
@@ -797,6 +797,14 @@ __attribute__((noinline)) int f(int x) { sink += g(x); return x + 1; }
 void *th(void *a) { sink += f(1); return NULL; }
 __attribute__((noinline)) int after(int x) { sink += x; return x; }
 int main(void) { pthread_t t; pthread_create(&t, NULL, th, NULL); pthread_join(t, NULL); after(2); printf("%d\n", sink); return 0; }
+"""
+
+E2E_WITNESS_MAX_STACK = r"""
+#include <setjmp.h>
+#include <stdio.h>
+jmp_buf jb; volatile int sink;
+__attribute__((noinline)) int rec(int n) { if (n == 0) { if (setjmp(jb) == 0) longjmp(jb, 1); return 1; } return rec(n - 1) + 1; }
+int main(void) { printf("%d\n", rec(1100)); return 0; }
 """
 
 E2E_WITNESS_PTHREAD_EXIT_CPP = r"""
@@ -844,7 +852,7 @@ def parse_dump(text):
     return res
 
 
-def run_e2e_one(ctx, objdir, wd, name, src, lang, flags, timeout_native=10, timeout_rec=25):
+def run_e2e_one(ctx, objdir, wd, name, src, lang, flags, timeout_native=10, timeout_rec=25, record_opts=()):
     """compile, run natively and under uftrace; returns a dict of observations"""
     os.makedirs(wd, exist_ok=True)
     ext = ".c" if lang == "c" else ".cpp"
@@ -859,7 +867,8 @@ def run_e2e_one(ctx, objdir, wd, name, src, lang, flags, timeout_native=10, time
     data = os.path.join(wd, name + ".data")
     uft = os.path.join(objdir, "uftrace")
     trc, tout, terr = sh(["timeout", str(timeout_rec), uft, "record", "--no-pager", "--no-event",
-                          "--libmcount-path=" + objdir, "-d", data, exe], timeout=timeout_rec + 10, cwd=wd)
+                          "--libmcount-path=" + objdir] + list(record_opts) + ["-d", data, exe],
+                         timeout=timeout_rec + 10, cwd=wd)
     obs = {"native_rc": nrc, "native_out": nout, "traced_rc": trc, "traced_out": tout, "record_err": terr[-300:]}
     if trc == 124 or not os.path.isdir(data):
         return obs
@@ -993,12 +1002,17 @@ def run_e2e(ctx, objdir):
         {"name": "w_pexit_cpp", "src": E2E_WITNESS_PTHREAD_EXIT_CPP, "lang": "c++", "flags": ["-pg", "-O0"], "key": "pthread-exit-destructors",
          "what": "pthread_exit in a traced C++ thread: the forced unwind stops at the hijacked return address of pthread_exit, "
                  "destructors of the live frames do not run (the program computes a different result)"},
+        {"name": "w_maxstack", "src": E2E_WITNESS_MAX_STACK, "lang": "c", "flags": ["-pg", "-O0"], "key": "setjmp-beyond-rstack-max",
+         "record_opts": ["--max-stack=2000"],
+         "what": "setjmp with more than MCOUNT_RSTACK_MAX (1024) shadow-stack entries under --max-stack=2000: the snapshot array "
+                 "of setup_jmpbuf_rstack overflows its malloc block and the traced program aborts"},
     ]
     wd = os.path.join(ctx.scratch, "e2e")
 
     def work(c):
         to = 6 if c["name"] in ("w_resume", "w_handler") else 25
-        return run_e2e_one(ctx, objdir, os.path.join(wd, c["name"]), c["name"], c["src"], c["lang"], c["flags"], timeout_rec=to)
+        return run_e2e_one(ctx, objdir, os.path.join(wd, c["name"]), c["name"], c["src"], c["lang"], c["flags"], timeout_rec=to,
+                           record_opts=c.get("record_opts", ()))
     with ThreadPoolExecutor(max_workers=8) as ex:
         results = list(ex.map(work, cases + witnesses))
     streams = []
